@@ -1,9 +1,10 @@
 #!/bin/sh
-# Offline build of the whole framework: every Lean module (model, lemmas, theorems, driver)
-# and every harness crate against /repo's working tree.
+# Offline build of the whole framework: every Lean module (model, lemmas, theorems of the
+# claimed checks, driver) and every harness crate against /repo's working tree.
 set -e
 cd "$(dirname "$0")"
 export CARGO_NET_OFFLINE=true
 [ -f harness/Cargo.lock ] || cp /repo/Cargo.lock harness/Cargo.lock
-(cd lean && lake build Minicbor mcdrv)
+THM=$(python3 verifkit/setup_targets.py)
+(cd lean && lake build Minicbor mcdrv $THM)
 (cd harness && cargo build --release --offline)
